@@ -48,7 +48,13 @@ def strip_comments(src: str) -> str:
 
 
 def lean_build() -> tuple[bool, str]:
-    p = subprocess.run(["lake", "build", "HG", "driver"], cwd=LEAN, capture_output=True, text=True)
+    # checks may run concurrently (thorough tiers in parallel): one build at a time
+    import fcntl
+
+    (LEAN / ".lake").mkdir(exist_ok=True)
+    with open(LEAN / ".lake" / "verif-build.lock", "w") as lk:
+        fcntl.flock(lk, fcntl.LOCK_EX)
+        p = subprocess.run(["lake", "build", "HG", "driver"], cwd=LEAN, capture_output=True, text=True)
     return p.returncode == 0, (p.stdout + p.stderr)[-4000:]
 
 
